@@ -27,6 +27,21 @@ def _cert(chk, name, fkey, pc, code_expr, spec_expr, replay=None):
     return surface_cert(chk, name, fkey, pc, code_expr, spec_expr, PS.K, PS.row_atoms(), replay=replay)
 
 
+def _concretise(chk, name, fk, expr, reference, volume=False):
+    """cross-check of the engine (pyvc.concrete): the symbolic value with the vertex / simplex arrays of a real, placed pyramid against the same
+    method run by CPython on that object"""
+    from pyvc import concrete
+    from .common import real_coxeter
+    cox = real_coxeter()
+    P = np.array([[0.0, 0, 0], [2, 0, 0], [2, 2, 0], [0, 2, 0], [0.5, 0.75, 3]]) + np.array([1.5, -0.5, 0.25])
+    o = cox.shapes.ConvexPolyhedron(P)
+    V, Sx = np.asarray(o._vertices, float), np.asarray(o._simplices, int)
+    env = concrete.Env(sizes={PS.N: len(V), PS.K: len(Sx)}, arrays={"V": V, "S": Sx})
+    # the cached fields of the symbolic pre-state are those of the real object (class invariant)
+    want = reference(o)
+    concrete.cross_check(chk, name, fk, expr, env, (), np.asarray(want))
+
+
 def run(chk):
     ld = chk.loader()
     shapes = ld.load("coxeter.shapes")
@@ -61,6 +76,7 @@ def run(chk):
         for p in chk.explore(fk, run_sv, assumptions=facts):
             r, vol = p.value
             _cert(chk, "signed_volume:post", fk, p.pc, ex(r), PS.solid_moment(1), replay=replay_measure("volume"))
+            _concretise(chk, "ConvexPolyhedron._calculate_signed_volume", fk, ex(r), lambda o: o._calculate_signed_volume())
             chk.prove_eq("signed_volume:caches_abs", fk, p.pc, ex(vol), sp.Abs(ex(r)))
     _tasks.append(("calculate_signed_volume", lambda c_, f_=sec_0: f_()))
 
@@ -124,6 +140,11 @@ def run(chk):
             return o._centroid, o._volume
         for p in chk.explore(fk, run_cs, assumptions=facts):
             cen, vol = p.value
+            for i in range(3):
+                def ref(o, i=i):
+                    o._centroid_from_triangulated_surface()
+                    return o._centroid[i]
+                _concretise(chk, f"ConvexPolyhedron._centroid_from_triangulated_surface[{'xyz'[i]}]", fk, ex(cen[i]), ref, volume=True)
             for i in range(3):
                 # centroid_i * volume  ==  M[x_i]      (volume is the cached M[1] by Inv)
                 _cert(chk, f"centroid:stokes[{'xyz'[i]}]", fk, p.pc, sigma.cancel_sums(ex(cen[i]) * ex(vol)),
